@@ -317,7 +317,9 @@ def field_grid(ctx):
         for a in ['0', '1', '2', '7', '10', '36', '99', '100', '1000', '123456789', '0.5', '1.5', '1.50', '2.25', '10.0',
                   '0.25', '3.125', '0.10', '0.000001', '0.0000001']:
             out.append(('duration', ((name, 'D:' + a),), '%s%s%s' % (pre, a, u)))
-    tsel = times if ctx.thorough else times[::5] + [(0, 0, 0), (24, 0, 0), (23, 59, 59), (5, 30, 0)]
+    # minute = 0 with second != 0 (and the other zero patterns) always, alone (above) and attached to a date (here)
+    tsel = times if ctx.thorough else times[::5] + [(0, 0, 0), (24, 0, 0), (23, 59, 59), (5, 30, 0), (14, 0, 5), (0, 0, 1),
+                                                    (23, 0, 59), (14, 5, 0), (10, 0, 30)]
     for (h, m, s) in tsel:
         out.append(('datetime', (('year', 2020), ('month', 2), ('day_of_month', 29)) + T(h, m, s), '2020-02-29' + iso_time(h, m, s)))
         out.append(('datetime', (('year', 1), ('month', 1), ('day_of_month', 1)) + T(h, m, s), '0001-01-01' + iso_time(h, m, s)))
@@ -330,7 +332,32 @@ def field_grid(ctx):
     return out
 
 
+def check_width_order(ctx):
+    """`fixed_format_number(n, size)` at both widths for the same n in ONE process, both orders (a width-less memo would
+    print '0012-12-25' as '12-12-25' or 'XXXX-12' as 'XXXX-0012', depending on which came first).  Numbers 61..98 are not
+    formatted by the rest of the run, so each sequence meets a fresh n; small n (1..31) are added for the mixed case."""
+    seqs = []
+    for n in list(range(61, 99)) + [1, 7, 12, 25, 31]:
+        w4 = ((('year', n),), '%04d' % n)
+        w2a = ((('month', n),), 'XXXX-%02d' % n)
+        w2b = ((('hour', n), ('minute', 0), ('second', 0)), 'T%02d' % n)
+        mixed = ((('year', n), ('month', n), ('day_of_month', n)), '%04d-%02d-%02d' % (n, n, n))
+        order = [w4, w2a, mixed, w2b, w4] if n % 2 else [w2a, w4, w2b, mixed, w2a]
+        seqs.append(order)
+    res = tc.run_ops([('ctorseq', tuple(kw for kw, _ in seq)) for seq in seqs], chunk=3)
+    for seq, rt in zip(seqs, res):
+        ctx.count('ctor:width-order')
+        exp = [e for _, e in seq]
+        if rt != exp:
+            tc.report(ctx, 'property', 'ctor-format-width-order',
+                      'formatting %s one after the other in one process gives %r, expected %r' % ([dict(k) for k, _ in seq], rt, exp),
+                      failing_input={'op': 'Timex(**fields).timex_value() for each field set, in this order, one process',
+                                     'fields_in_order': [dict(k) for k, _ in seq], 'observed': rt, 'expected': exp},
+                      property_fails=True)
+
+
 def check_field_grid(ctx):
+    check_width_order(ctx)
     grid = field_grid(ctx)
     res = tc.run_ops([('ctor', kw) for _, kw, _ in grid])
     for (kind, kw, exp), rt in zip(grid, res):
@@ -501,6 +528,10 @@ def _correspond(ctx):
         for (h, mi, s) in (hms[i % len(hms)], hms[(i * 7 + 3) % len(hms)]):
             ops.append(('fromdt', y, m, d, h, mi, s))
             exp.append('%04d-%02d-%02d' % (y, m, d) + iso_time(h, mi, s))
+    for (y, m, d) in [(12, 12, 25), (1, 1, 1), (99, 9, 9), (2020, 2, 29), (9999, 12, 31)]:
+        for (h, mi, sec) in [(14, 0, 5), (0, 0, 1), (23, 0, 59), (14, 5, 0), (12, 12, 12)]:
+            ops.append(('fromdt', y, m, d, h, mi, sec))
+            exp.append('%04d-%02d-%02d' % (y, m, d) + iso_time(h, mi, sec))
     lines = [tc.line_of(o) for o in ops]
     impl = tc.run_ops(ops)
     model = tc.drive(lines)
